@@ -22,6 +22,9 @@ def main(tier):
     # ... and on the library exactly as the project's own build system makes it (meson: its flags, its options), not the monitor's build
     for cfg in ('shipped', 'kissel'):
         results.append(sweeprun.run(cfg, 'meson', budget // 3, env={'LD_PRELOAD': build.hostile_host(cfg)['so']}))   # inside a host that defines the library's internal names itself
+        # ... in its other common configurations: optimised without assertions (buildtype=release, b_ndebug=true), plain char unsigned (arm, ppc64le, s390x ABI)
+        for pb in build.PROJECT_BUILDS[1:]:
+            results.append(sweeprun.run(cfg, pb, budget // 5, env={'LD_PRELOAD': build.hostile_host(cfg)['so']}))
     viol, paths, fns, tot = sweeprun.merge(results)
     for res in results:
         for c in res['crashes']:
